@@ -274,6 +274,15 @@ macro_rules! set_impl {
                                 Box::new(move || html(v.clone()))
                             }
                             (Some(ctx), "t_display") => Box::new(move || t_display!(ctx, hello).to_string()),
+                            // a formatting view: must format for the locale being rendered, not the one it was created under
+                            (Some(ctx), "t_format") => {
+                                let v = leptos_i18n::formatting::t_format!(ctx, move || 1234567.5f64, formatter: number);
+                                Box::new(move || format!("fmt:{}", html(v.clone())))
+                            }
+                            (Some(ctx), "tu_format") => {
+                                let v = leptos_i18n::formatting::tu_format!(ctx, move || 1234567.5f64, formatter: number);
+                                Box::new(move || format!("fmt:{}", html(v.clone())))
+                            }
                             (Some(ctx), _) => Box::new(move || tu_string!(ctx, hello).to_string()),
                             (None, _) => {
                                 let g = hs[i].owner.clone();
@@ -306,11 +315,15 @@ macro_rules! set_impl {
                 let own = L::find_locale(&entries);
                 header_info = json!({"entries": entries, "parsed": parsed, "find_locale": own.as_str()});
             }
+            let fmt_table: serde_json::Map<String, Value> = L::get_all()
+                .iter()
+                .map(|l| (l.as_str().to_string(), json!(leptos_i18n::formatting::td_format_string!(*l, 1234567.5f64, formatter: number))))
+                .collect();
             drop(handles);
             drop(accessors);
             tick();
             drop(root_owner);
-            json!({"steps": steps, "header": header_info})
+            json!({"steps": steps, "header": header_info, "fmt_table": fmt_table})
         }
     };
 }
